@@ -21,6 +21,7 @@ fn opts(tier: Tier) -> GenOpts {
         strata: [2, 0, 7, 1],
         precedence: false,
         avoid_insert: false,
+        pad_tokens: true,
     }
 }
 
